@@ -87,13 +87,14 @@ structure Rel (s₁ s₂ : St) : Prop where
   init₁ : s₁.gradInit = true
   init₂ : s₂.gradInit = true
   grad : s₁.grad = s₂.grad
+  mg : s₁.ga.maxGrad = s₂.ga.maxGrad
 
 theorem rel_seed {s₁ s₂ : St} (r : Rel s₁ s₂) (idx : Nat) (v : Int) :
     Rel (s₁.seed idx v).1 (s₂.seed idx v).1 := by
   rw [seed_of_init s₁ idx v r.init₁, seed_of_init s₂ idx v r.init₂, r.grad]
   split
   · exact r
-  · exact ⟨r.tape, r.init₁, r.init₂, rfl⟩
+  · exact ⟨r.tape, r.init₁, r.init₂, rfl, r.mg⟩
 
 theorem seedAll_cons (s : St) (p : Nat × Int) (l : List (Nat × Int)) :
     seedAll s (p :: l) = seedAll (s.seed p.1 p.2).1 l := rfl
@@ -108,7 +109,7 @@ theorem rel_seedAll {s₁ s₂ : St} (r : Rel s₁ s₂) (l : List (Nat × Int))
 
 theorem rel_init (s₁ s₂ : St) (ht : s₁.tape = s₂.tape) (hm : s₁.ga.maxGrad = s₂.ga.maxGrad) :
     Rel s₁.initGradients s₂.initGradients :=
-  ⟨ht, rfl, rfl, by rw [initGradients_grad, initGradients_grad, hm]⟩
+  ⟨ht, rfl, rfl, by rw [initGradients_grad, initGradients_grad, hm], hm⟩
 
 theorem rel_cleared (s₁ s₂ : St) (seeds : List (Nat × Int)) (ht : s₁.tape = s₂.tape)
     (hm : s₁.ga.maxGrad = s₂.ga.maxGrad) (hs : seeds ≠ []) :
@@ -126,8 +127,8 @@ theorem pass_pure_fwd (s₁ s₂ : St) (seeds : List (Nat × Int)) (ht : s₁.ta
     (seedAll { s₂ with gradInit := false } seeds).forward.toOption.map (·.grad) := by
   have r := rel_cleared s₁ s₂ seeds ht hm hs
   unfold St.forward
-  rw [if_pos r.init₁, if_pos r.init₂]
-  simp [Except.toOption, r.tape, r.grad]
+  rw [if_pos r.init₁, if_pos r.init₂, r.mg, r.grad, r.tape]
+  split <;> simp [Except.toOption]
 
 theorem pass_pure_rev (s₁ s₂ : St) (seeds : List (Nat × Int)) (ht : s₁.tape = s₂.tape)
     (hm : s₁.ga.maxGrad = s₂.ga.maxGrad) (hs : seeds ≠ []) (_hb : ∀ p ∈ seeds, p.1 < s₁.ga.maxGrad) :
@@ -135,8 +136,8 @@ theorem pass_pure_rev (s₁ s₂ : St) (seeds : List (Nat × Int)) (ht : s₁.ta
     (seedAll { s₂ with gradInit := false } seeds).reverse.toOption.map (·.grad) := by
   have r := rel_cleared s₁ s₂ seeds ht hm hs
   unfold St.reverse
-  rw [if_pos r.init₁, if_pos r.init₂]
-  simp [Except.toOption, r.tape, r.grad]
+  rw [if_pos r.init₁, if_pos r.init₂, r.mg, r.grad, r.tape]
+  split <;> simp [Except.toOption]
 
 /-! ### recording control -/
 
